@@ -92,7 +92,8 @@ BODY_ARGS = {
     "json-inline": [({"body": {"a": "x", "n": 3}}, {"ctype": "application/json", "json": {"a": "x", "n": 3}}),
                     ({"body": {"a": "é"}}, {"ctype": "application/json", "json": {"a": "é"}})],
     "json-array-ref": [({"body": ITEM_BODIES}, {"ctype": "application/json", "json": ITEM_BODIES}),
-                       ({"body": []}, {"ctype": "application/json", "json": []})],
+                       ({"body": []}, {"ctype": "application/json", "json": []}),
+                       ({"body": {"$repeat": [ITEM_BODIES[1], 3]}}, {"ctype": "application/json", "json": [ITEM_BODIES[1]] * 3})],
     "json-string": [({"body": "hello"}, {"ctype": "application/json", "json": "hello"})],
     "json-array-inline": [({"body": [{"a": "x", "n": 3}, {"a": "y"}]}, {"ctype": "application/json", "json": [{"a": "x", "n": 3}, {"a": "y"}]}),
                           ({"body": []}, {"ctype": "application/json", "json": []})],
